@@ -18,6 +18,6 @@ UNext == /\ ui + Lanes <= Len(UValues) /\ ui' = ui + Lanes /\ vi' = vi
                LET s == Layout(c.l, c.root)  after == Apply(c.u, c.root, c.p)  sa == Layout(c.l, after) IN
                PrintT("@@" \o ToJson([v |-> UValues[ui'].i, t |-> c.t, h |-> c.h, l |-> c.l, u |-> c.u, p |-> c.p, text |-> Emit(s), expr |-> Expr(c.u, c.root, c.p),
                                       rows |-> Rows(sa), keep |-> LeadComments(s[1].lead) \o Keep(c.u, c.root, c.p) \o (IF s[1].foot # "" /\ ~FootOpen(c.u, c.root, c.p) THEN <<s[1].foot>> ELSE <<>>),
-                                      all |-> IF c.u = "copydel" THEN Comments(s) \o NodeComments(NodeAt(c.root, c.p)) ELSE Comments(s), incomments |-> Comments(s), inrows |-> Rows(s)]))
+                                      all |-> IF c.u \in {"copydel", "mergeinto"} THEN Comments(s) \o NodeComments(NodeAt(c.root, c.p)) ELSE Comments(s), incomments |-> Comments(s), inrows |-> Rows(s)]))
 UpdateLaws == ui >= 1 => \A c \in UCases(ui) : ~Valid(c) \/ (FrameLaw(c.u, c.root, c.p) /\ UniqueKeysIn(Apply(c.u, c.root, c.p)))
 =============================================================================
